@@ -22,8 +22,13 @@ PARTIAL = ['C12_comments_kept_covered_partial: presence of every kept comment is
            '(\\section, \\href, \\item[..], accents, math alphabets: several strip / re-case / re-style their argument) '
            'and matrix cells',
            'C12_math_verbatim_covered_partial: presence of the source of every verbatim formula, same covered positions',
-           'C12_source_level (DESIGN 6/C12: documents differing only in comment text convert equally, via the document '
-           'grammar of C02) is not stated; the tree-level non-interference theorems are complete']
+           'C12_source_level_partial (DESIGN 6/C12 C12_source_level, composed with C02_parse_unparse_partial): documents '
+           'of the CORE grammar of C02 (text, groups, macros with mandatory braced arguments, $..$ \\(..\\) \\[..\\], '
+           'comments, paragraph breaks) differing only in comment text convert equally for keep_comments=False and '
+           'math_mode text / with-delimiters / remove; C12_source_level_all_modes_partial: the same for ALL four math modes '
+           '(verbatim included) when the formulas of the two documents are identical (comments inside a formula are '
+           'reproduced with its source in verbatim mode); not stated: the rest of the document grammar (environments, '
+           'optional arguments, specials, $$..$$); the tree-level non-interference theorems are complete']
 REFUTED = []
 CASE_TIMEOUT = 10.0
 
